@@ -16,7 +16,8 @@ RECURSIVE ToSeq(_)
 ToSeq(S) == IF S = {} THEN <<>> ELSE LET x == CHOOSE y \in S : TRUE IN <<x>> \o ToSeq(S \ {x})
 \* the whole relation, matches and non-matches, for the harness to cross-check
 TableSeq == ToSeq({[re |-> r, t |-> t, matches |-> Matches(r, t),
-                   groups |-> IF Matches(r, t) THEN Caps[<<r, t>>] ELSE <<>>]
+                   groups |-> IF Matches(r, t) THEN Caps[<<r, t>>] ELSE <<>>,
+                   whole |-> IF Matches(r, t) THEN Whole(r, t) ELSE ""]
                    : r \in DOMAIN Regexes, t \in DOMAIN Texts})
 Dump == PrintT(<<"REPLAY", ToJson([regs |-> regs, regexes |-> Regexes, texts |-> Texts,
                                    table |-> TableSeq])>>)
